@@ -29,6 +29,7 @@ TRUSTED = [
 ASSUMPTIONS = [
     "faults are injected at the os/pwd/grp boundary; exception classes: OSError(errno), KeyError, one other exception class (RuntimeError)",
     "process.get_execv_args is out of scope: its result (filename, argv) is an input",
+    "failure_message_and_127 covers the ways the calls fail (Props.C18.Raises): OSError with any errno from setgroups/setgid/setuid/chdir, KeyError from pwd.getpwuid, any exception from umask/execve; a non-OSError out of those system calls or a non-KeyError out of the lookup (not raised by CPython for well-typed arguments) ends in _exit(127) without a specific reason (any_failure_exits_127)",
 ]
 RULE = ("cases = configuration x fault table. Configurations: a structured product over fcgi, redirect_stderr, minfds "
         "(0..9, occasionally 1024), uid (None / same as current / other with current uid 0 / other as non-root), directory, "
@@ -39,10 +40,10 @@ RULE = ("cases = configuration x fault table. Configurations: a structured produ
 TECHNIQUE = ("Lean 4 theorems over a script model of _spawn_as_child whose conditions, constants, message texts and "
              "exception guards are regenerated from process.py/options.py; differential correspondence against the real "
              "methods under a recording os/pwd/grp proxy with exhaustive single-fault injection")
-LEVEL_TEXT = ("exec_preconditions, no_exec_after_failure, never_returns and the environment composition are proved for "
-              "every configuration and every fault oracle (no bound on minfds, environment size or number of faults); "
-              "failure_message_and_127 is proved in full for directory and exec failures and for every user-switch failure "
-              "drop_privileges reports, with the open clause F22 (os.setuid raising) as a decided counterexample")
+LEVEL_TEXT = ("exec_preconditions, no_exec_after_failure, never_returns, the environment composition and "
+              "failure_message_and_127 (every errno at setgroups/setgid/setuid/chdir, KeyError at the password lookup, every "
+              "exception at umask/execve) are proved for every configuration and every fault oracle (no bound on minfds, "
+              "environment size or number of faults)")
 LEVEL_NOTE = ("trusts Lean's kernel, the extractor, the recording proxy; the real kernel's effect of the calls "
               "(descriptor inheritance, identity change) is outside; see DESIGN.md C18")
 DESIGN_REF = "DESIGN.md section 6, C18"
@@ -489,7 +490,7 @@ CORPUS = [
     ({'dir': '/nonexistent'}, [('chdir', ('O', errno_mod.ENOENT)), ('write#1', ('O', errno_mod.EBADF)), ('write#2', ('O', errno_mod.EBADF))]),
     ({}, [('execve', ('O', errno_mod.ENOENT)), ('write#2', ('O', errno_mod.EPIPE))]),
     ({}, [('execve', ('X',)), ('write#1', ('X',)), ('write#2', ('X',))]),
-    # F22 (open): os.setuid raises instead of drop_privileges returning a message
+    # F22 (fixed in /repo, 78df087): os.setuid raising must be reported like the other failures (regression)
     ({'uid': 33, 'cur': 0}, [('setuid', ('O', errno_mod.EPERM))]),
     ({'uid': 33, 'cur': 0}, [('setuid', ('O', errno_mod.EAGAIN))]),
     ({'uid': 33, 'cur': 0}, [('setgid', ('O', errno_mod.EPERM))]),
